@@ -91,6 +91,12 @@ macro "rmw_mem_core" f:ident : tactic =>
     generalize s.mem e = m at hm
     rcases hc with rfl | rfl <;>
     · constfold [rmwP, rmwV, rmw, setNZ] at hm ⊢
+      have hg8 : ∀ z : Int, 0 ≤ z ∧ z ≤ 255 → geB z 128 = flag z 7 := by intro z hz; bool_omega
+      have hg16 : ∀ z : Int, 0 ≤ z ∧ z ≤ 65535 → geB z 32768 = flag z 15 := by intro z hz; bool_omega
+      have hl : ∀ z : Int, eqB (z % 2) 1 = flag z 0 := by intro z; simp [flag]
+      try rw [hg8 m hm]
+      try rw [hg16 m hm]
+      try rw [hl m]
       simp only [flagalg]
       simp only [pyarith, Int.reducePow, Int.reduceMul]
       split_ifs <;> simp [core, flagalg, *]
@@ -117,25 +123,7 @@ theorem opLSR_mem_core (c : Cfg) (hc : IsDev c) (x : St → Int × St) (mo : Mod
                  else s.mem k } := by
   rmw_mem_core Mpu6502.opLSR_mem
 
-theorem opROL_mem_core (c : Cfg) (hc : IsDev c) (x : St → Int × St) (mo : Mode) (hx : ModeSem c x mo)
-    (s : St) (hs : WF c s) :
-    core (Mpu6502.opROL_mem c x s) =
-      { core s with
-        p := rmwP c.BYTE_WIDTH .ROL s.p (s.mem (ea c.BYTE_WIDTH mo (core s))) (flag s.p bitC),
-        mem := fun k => if k = ea c.BYTE_WIDTH mo (core s)
-                 then rmwV c.BYTE_WIDTH .ROL (s.mem (ea c.BYTE_WIDTH mo (core s))) (flag s.p bitC)
-                 else s.mem k } := by
-  rmw_mem_core Mpu6502.opROL_mem
 
-theorem opROR_mem_core (c : Cfg) (hc : IsDev c) (x : St → Int × St) (mo : Mode) (hx : ModeSem c x mo)
-    (s : St) (hs : WF c s) :
-    core (Mpu6502.opROR_mem c x s) =
-      { core s with
-        p := rmwP c.BYTE_WIDTH .ROR s.p (s.mem (ea c.BYTE_WIDTH mo (core s))) (flag s.p bitC),
-        mem := fun k => if k = ea c.BYTE_WIDTH mo (core s)
-                 then rmwV c.BYTE_WIDTH .ROR (s.mem (ea c.BYTE_WIDTH mo (core s))) (flag s.p bitC)
-                 else s.mem k } := by
-  rmw_mem_core Mpu6502.opROR_mem
 
 theorem opDECR_mem_core (c : Cfg) (hc : IsDev c) (x : St → Int × St) (mo : Mode) (hx : ModeSem c x mo)
     (s : St) (hs : WF c s) :
@@ -165,6 +153,12 @@ macro "rmw_acc_core" f:ident : tactic =>
     generalize s.a = m at ha
     rcases hc with rfl | rfl <;>
     · constfold [rmwP, rmwV, rmw, setNZ] at ha ⊢
+      have hg8 : ∀ z : Int, 0 ≤ z ∧ z ≤ 255 → geB z 128 = flag z 7 := by intro z hz; bool_omega
+      have hg16 : ∀ z : Int, 0 ≤ z ∧ z ≤ 65535 → geB z 32768 = flag z 15 := by intro z hz; bool_omega
+      have hl : ∀ z : Int, eqB (z % 2) 1 = flag z 0 := by intro z; simp [flag]
+      try rw [hg8 m ha]
+      try rw [hg16 m ha]
+      try rw [hl m]
       simp only [flagalg]
       simp only [pyarith, Int.reducePow, Int.reduceMul]
       split_ifs <;> simp [core, flagalg, *]
@@ -182,17 +176,7 @@ theorem opLSR_acc_core (c : Cfg) (hc : IsDev c) (s : St) (hs : WF c s) :
                     p := rmwP c.BYTE_WIDTH .LSR s.p s.a (flag s.p bitC) } := by
   rmw_acc_core Mpu6502.opLSR_acc
 
-theorem opROL_acc_core (c : Cfg) (hc : IsDev c) (s : St) (hs : WF c s) :
-    core (Mpu6502.opROL_acc c s) =
-      { core s with a := rmwV c.BYTE_WIDTH .ROL s.a (flag s.p bitC),
-                    p := rmwP c.BYTE_WIDTH .ROL s.p s.a (flag s.p bitC) } := by
-  rmw_acc_core Mpu6502.opROL_acc
 
-theorem opROR_acc_core (c : Cfg) (hc : IsDev c) (s : St) (hs : WF c s) :
-    core (Mpu6502.opROR_acc c s) =
-      { core s with a := rmwV c.BYTE_WIDTH .ROR s.a (flag s.p bitC),
-                    p := rmwP c.BYTE_WIDTH .ROR s.p s.a (flag s.p bitC) } := by
-  rmw_acc_core Mpu6502.opROR_acc
 
 theorem opDECR_acc_core (c : Cfg) (hc : IsDev c) (s : St) (hs : WF c s) :
     core (Mpu6502.opDECR_acc c s) =
@@ -205,5 +189,40 @@ theorem opINCR_acc_core (c : Cfg) (hc : IsDev c) (s : St) (hs : WF c s) :
       { core s with a := rmwV c.BYTE_WIDTH .INC s.a (flag s.p bitC),
                     p := rmwP c.BYTE_WIDTH .INC s.p s.a (flag s.p bitC) } := by
   rmw_acc_core Mpu6502.opINCR_acc
+
+
+
+
+
+
+/-- From a `core` equation of a memory-form helper to the handler contract. -/
+theorem rmw_mem_ok (c : Cfg) (hc : IsDev c) (v : Variant) (f : St → St) (mn : Mn) (hmn : IsRmw mn)
+    (mo : Mode) (hmo : mo ≠ .acc)
+    (hcore : ∀ s, WF c s → core (f s) =
+      { core s with
+        p := rmwP c.BYTE_WIDTH mn s.p (s.mem (ea c.BYTE_WIDTH mo (core s))) (flag s.p bitC),
+        mem := fun k => if k = ea c.BYTE_WIDTH mo (core s)
+                 then rmwV c.BYTE_WIDTH mn (s.mem (ea c.BYTE_WIDTH mo (core s))) (flag s.p bitC)
+                 else s.mem k }) :
+    HandlerOK c v (fun s => bump (mo.len - 1) (f s)) mn mo := by
+  intro s hs
+  obtain ⟨ha, hxx, hy, hsp, hp, hpc, hmem, hw⟩ := core_eq (hcore s hs)
+  rw [exec_rmw_mem _ _ _ hmn _ hmo]
+  simp only [ea_abs, nextPc_abs]
+  simp only [absH, abs, bump, core, write, nextPc, ha, hxx, hy, hsp, hp, hpc, hmem, hw,
+    addrMask_succ hc, normP_rmwP _ hc.W, flag_normP _ _ (by decide : bitC ∈ [0, 1, 2, 3, 6, 7, 14, 15])]
+  rfl
+
+theorem rmw_acc_ok (c : Cfg) (hc : IsDev c) (v : Variant) (f : St → St) (mn : Mn) (hmn : IsRmw mn)
+    (hcore : ∀ s, WF c s → core (f s) =
+      { core s with a := rmwV c.BYTE_WIDTH mn s.a (flag s.p bitC),
+                    p := rmwP c.BYTE_WIDTH mn s.p s.a (flag s.p bitC) }) :
+    HandlerOK c v f mn .acc := by
+  intro s hs
+  obtain ⟨ha, hxx, hy, hsp, hp, hpc, hmem, hw⟩ := core_eq (hcore s hs)
+  rw [exec_rmw_acc _ _ _ hmn]
+  simp only [absH, abs, core, nextPc, Mode.len, ha, hxx, hy, hsp, hp, hpc, hmem, hw,
+    addrMask_succ hc, normP_rmwP _ hc.W, flag_normP _ _ (by decide : bitC ∈ [0, 1, 2, 3, 6, 7, 14, 15])]
+  simp
 
 end Py65.Proofs
